@@ -1,7 +1,7 @@
 (** C20 — TCP method policy: SACK never masked, fallback only when unsupported.  Theorems only.
     Error values are Go's error trees (fmt.Errorf %w chains, *sack.NotSupportedError, errors.Join) of ANY shape and depth. *)
 From Coq Require Import List ZArith Bool.
-From TR Require Import Pol.Params Proofs.ParamProofs.
+From TR Require Import Pol.Params Proofs.ParamProofs Pol.FallbackProg Generated.Fallback Proofs.FallbackProofs.
 Open Scope Z_scope.
 
 (** method sack: the outcome is a SACK trace or (exactly) the SACK error; SYN is never attempted *)
@@ -42,3 +42,10 @@ Theorem C20_e2e_uses_syn : forall p, rp_proto p = PTcp ->
   rp_method (e2e_params p) <> MSack /\ rp_method (e2e_params p) <> MPrefer /\ rp_min (e2e_params p) = rp_max p /\ rp_max (e2e_params p) = rp_max p.
 Proof. exact e2e_uses_syn. Qed.
 Print Assumptions C20_e2e_uses_syn.
+
+(** tie kind A, regenerated on every run by tools/goextract: performTCPFallback as it stands in the source (default for the empty method, the switch, the prefer_sack block with errors.As on *sack.NotSupportedError and the %w wrap) evaluates to the model's [perform] for EVERY method and EVERY outcome of the three implementations; a statement the translator does not recognise evaluates to None and breaks this theorem *)
+Theorem C20_performTCPFallback_tied m syn sack sock :
+  feval (go_fallback_case m) (outs syn sack sock) (mkFS None 0 0 0) = Some (perform m syn sack sock).
+Proof. exact (@extracted_fallback_is_perform m syn sack sock). Qed.
+Print Assumptions C20_performTCPFallback_tied.
+
